@@ -22,6 +22,12 @@
      analysis/coherence.py 204-235  CoherenceAnalyzer.coherence_partial (as repaired) -> an_partial_mat
      analysis/coherence.py 340-364  MTCoherenceAnalyzer.coherence (as repaired: diagonal 1) -> mt_coherence_mat
 
+     utils.py adaptive_weights: only its stopping test                         -> adaptive_stop
+     (estimator contract) channel gains act bilinearly on the cross-spectra   -> gained
+   "as repaired" refers to the /repo commits 83d594e (partial coherence: f_ry instead of f_yr) and
+   1f8444b (multitaper analyzer diagonal); the pre-repair behaviour is kept as
+   coherence_partial_mat_old / mt_coherence_mat_old for the refutation theorems.
+
    What is NOT modelled and enters as data (library / estimator oracles):
      the cross-spectral matrix S i j k returned by get_spectra (mlab.csd, multi_taper_csd,
      periodogram_csd) and by mtm_cross_spectrum; np.sqrt (a value s with the contract
